@@ -6,6 +6,7 @@ one task at a time.  Every decision (which ready task runs next, which worker
 it runs on, whether a stall is injected) goes through a ``Choices`` object,
 which either draws from the run PRNG and records, or replays a recorded list.
 """
+import bisect
 import contextlib
 import hashlib
 import os
@@ -192,13 +193,24 @@ class SimScheduler:
         budget = max(10000, 50 * len(wanted))
         steps = 0
         workers_used = set()
+        # incremental ready set, kept sorted by the canonical key (never by hash order)
+        skey = {k: _sort_key(k) for k in wanted}
+        dependents = {k: [] for k in wanted}
+        missing = {}
+        for k in wanted:
+            missing[k] = len(deps[k])
+            for d in deps[k]:
+                dependents[d].append(k)
+        ready_sorted = sorted((skey[k], k) for k in wanted if missing[k] == 0)
         while remaining:
-            ready = sorted((k for k in remaining if deps[k] <= done), key=_sort_key)
+            ready = [k for _, k in ready_sorted]
             if not ready:
                 raise HarnessError("no ready task (cycle in graph?)")
             for k in ready:
                 stamps.setdefault(k, self.seq)
-            k = ready[self._pick_ready(ready, stamps, ndeps)]
+            pick = self._pick_ready(ready, stamps, ndeps)
+            k = ready[pick]
+            del ready_sorted[pick]
             node = graph[k]
             steps += 1
             if steps > budget or self.seq > self.max_events:
@@ -247,6 +259,10 @@ class SimScheduler:
             self.seq += 1
             done.add(k)
             remaining.discard(k)
+            for dep in dependents[k]:
+                missing[dep] -= 1
+                if missing[dep] == 0:
+                    bisect.insort(ready_sorted, (skey[dep], dep))
         self.stats["workers_used"] = max(self.stats["workers_used"], len(workers_used))
 
         def fetch(k):
@@ -269,11 +285,18 @@ class SimScheduler:
         budget = max(20000, 200 * len(wanted))
         steps = 0
         failure = None
+        skey = {k: _sort_key(k) for k in wanted}
+        dependents = {k: [] for k in wanted}
+        missing = {}
+        for k in wanted:
+            missing[k] = len(deps[k])
+            for d in deps[k]:
+                dependents[d].append(k)
+        ready_sorted = sorted((skey[k], k) for k in wanted if missing[k] == 0)
         while remaining or running:
             if failure is not None and not running:
                 raise failure  # every in-flight task has been drained
-            ready = sorted((k for k in remaining if k not in started and deps[k] <= done),
-                           key=_sort_key)
+            ready = [k for _, k in ready_sorted]
             options = [("resume", t) for t in running]
             if len(running) < self.n_threads and failure is None:
                 options += [("start", k) for k in ready]
@@ -292,6 +315,7 @@ class SimScheduler:
                 k = what
                 t = _TaskThread(self, k, graph[k], {d: store[d] for d in deps[k]})
                 started.add(k)
+                ready_sorted.remove((skey[k], k))
                 running.append(t)
                 self.events.append((self.seq, self._depth, "start:" + str(canon_key(k)),
                                     _key_index(k), 0, ndeps[k]))
@@ -315,6 +339,10 @@ class SimScheduler:
                     continue
                 store[t.key] = t.value
                 done.add(t.key)
+                for dep in dependents[t.key]:
+                    missing[dep] -= 1
+                    if missing[dep] == 0:
+                        bisect.insort(ready_sorted, (skey[dep], dep))
                 self.stats["tasks"] += 1
                 if ndeps[t.key] > 1:
                     self.stats["multi_dep_tasks"] += 1
